@@ -28,6 +28,15 @@ CONFIG = {
   "level_text": "Machine-checked theorems (Lean 4): any non-zero error pattern confined to 32 consecutive bits (every single-bit flip, any damage within 4 consecutive bytes, damage inside the trailer) turns a verifying file of any length into a rejected one; files shorter than the trailer are rejected; the trailer check is exactly crc32(payload)=LE trailer; the instruction codec round-trips for all instruction lists not ending in Ret (counterexample theorem for the Ret case, a latent defect). Tied to the code by differential runs against crc32fast and ParsedProgram::from_bytes/to_bytes. Partial: header, sections and constant decoding and the no-unbounded-allocation clause are not modelled.",
   "level_note": "Trusted: Lean kernel + propext/Classical.choice/Quot.sound; the harness; that the loader calls verify_crc_trailer_seek first (observed: every damaged file is rejected). Truncations are covered by exhaustive per-file sweeps, not by a theorem (a truncated file passes the CRC with probability 2^-32).",
  },
+ "C15": {
+  "engine": "core",
+  "rule": "10 integer kinds x boundary-anchored (min, max, 0, small) start/end x {no step, zero, negative, positive step} x {inclusive, exclusive} x {immutable, mutable operands}; f32/f64 with dyadic operands (exact arithmetic) incl. literal operands; distinct = distinct case lines",
+  "trusted": ["f32/f64 +,-,/ ,floor, ceil and `as usize` are the hardware/IEEE operations (driver instantiates the model's float parameter with Lean Float/Float32)",
+              "the f64 quotient floor/ceil of the integer increment forms equals exact integer division for |values| < 2^52 (theorems use qFloor/qCeil; the driver uses the f64 computation; both are run against the code)"],
+  "assumptions": ["operand magnitudes below 2^53 (larger literals cannot be spelled exactly at this commit, see C13-D3)", "descending ranges with a negative step may be errors (reading of the property recorded in DESIGN.md)"],
+  "level_text": "Machine-checked theorems (Lean 4) over a model of machines/range for all integer kinds, bounds and steps: a..b, a..=b, a..s..b, a..s..=b with positive step evaluate to exactly the terms of the progression before/up to b (membership characterised by an iff) whenever the span is representable and the value one step past the last element is representable; zero steps and wrong-order bounds are errors; results are always initial segments of the progression; float kinds get the structural theorem over parametric float operations. Counterexample theorems pin the three places where the pinned commit falls short (C15-D1, D3; D2 is float-only and replayed). Tied to the code by differential runs over all kinds.",
+  "level_note": "Trusted: Lean kernel + propext/Classical.choice/Quot.sound; harness rendering of operands (annotated definitions); IEEE float ops. Partial: float ranges are proved only structurally (repeated addition), exactness is checked on dyadic operands by the exact-arithmetic oracle in the driver.",
+ },
  "C20": {
   "rule": "every edge subset of the include graph over 3 files (512 graphs, plain and decorated rendering; thorough: all 65536 over 4 files) plus random graphs over 2-5 files in 3 directories with fences, CRLF, whitespace and non-include brace lines; distinct = distinct file-system encodings",
   "trusted": ["std::fs::canonicalize modelled as lexical normalisation with existence checks on a symlink-free tree",
